@@ -24,6 +24,7 @@ import (
 	"io"
 	"math/big"
 	"reflect"
+	"regexp"
 	"runtime"
 	"runtime/debug"
 	"sort"
@@ -81,6 +82,7 @@ type ignS struct {
 
 type target struct {
 	name   string
+	class  string             // coarse type class used in signatures (filled in init)
 	mk     func() interface{} // fresh pointer to decode into
 	schema *refrlp.Schema
 	fromGo bool                                    // refrlp.FromGo models the Go type
@@ -134,10 +136,55 @@ var targets = []*target{
 
 var targetByName = map[string]*target{}
 
+// classOf maps a target to the coarse class that appears in signatures: fine
+// enough to tell defects apart, coarse enough that one defect in (say) the uint
+// codec does not yield one signature per integer width.
+func classOf(name string) string {
+	switch name {
+	case "uint8", "uint16", "uint32", "uint64", "uint":
+		return "uint"
+	case "big.Int", "*big.Int":
+		return "bigint"
+	case "[]byte", "string":
+		return "bytes"
+	case "[4]byte", "[20]byte", "common.Address", "*common.Address":
+		return "bytearray"
+	case "[]uint", "[]uint16", "[][]byte", "[][]uint8list", "[2]uint16", "[]RawValue":
+		return "list"
+	case "tailS", "tailOnly", "ignS":
+		return "struct"
+	case "nilAddrS", "nilInnerS", "nilBoth":
+		return "struct-nil"
+	case "pairB1", "nilB1S":
+		return "struct-of-[1]byte"
+	}
+	return name // bool, [1]byte, RawValue, interface{}, account.Account, eth_tx.Transaction
+}
+
 func init() {
 	for _, t := range targets {
+		t.class = classOf(t.name)
 		targetByName[t.name] = t
 	}
+}
+
+var slugRe = regexp.MustCompile(`[^a-z0-9]+`)
+
+// errSlug turns a decoder error into a short stable token (type names dropped).
+func errSlug(err error) string {
+	m := err.Error()
+	m = strings.TrimPrefix(m, "rlp: ")
+	if i := strings.Index(m, " for "); i >= 0 {
+		m = m[:i]
+	}
+	if i := strings.Index(m, ", decoding into"); i >= 0 {
+		m = m[:i]
+	}
+	m = strings.Trim(slugRe.ReplaceAllString(strings.ToLower(m), "-"), "-")
+	if len(m) > 48 {
+		m = m[:48]
+	}
+	return m
 }
 
 // ------------------------------------------------------------------ helpers
@@ -259,7 +306,7 @@ func checkDecode(t *target, in []byte, deep bool) (fs []finding) {
 	if err != nil {
 		nRejected++
 		if reason == "" {
-			add("C08:reject-valid:"+t.name, fmt.Sprintf("DecodeBytes(%s, *%s) = %v but the input is the canonical encoding of a value of that type", short(in), t.name, err))
+			add("C08:reject-valid:"+t.class+":"+errSlug(err), fmt.Sprintf("DecodeBytes(%s, *%s) = %v but the input is the canonical encoding of a value of that type", short(in), t.name, err))
 		} else {
 			noteOutcome(t, reason)
 		}
@@ -274,25 +321,25 @@ func checkDecode(t *target, in []byte, deep bool) (fs []finding) {
 		}
 		switch {
 		case eerr != nil:
-			add("C08:reencode-error:"+t.name, fmt.Sprintf("value decoded from %s into *%s cannot be encoded: %v", short(in), t.name, eerr))
+			add("C08:reencode-error:"+t.class, fmt.Sprintf("value decoded from %s into *%s cannot be encoded: %v", short(in), t.name, eerr))
 		case !bytes.Equal(enc, in):
 			r := reason
 			if r == "" {
 				r = "reencode-differs"
 			}
-			add("C08:noncanonical:"+sigReason(r, t.name), fmt.Sprintf("DecodeBytes(%s, *%s) accepted, value %s re-encodes as %s (reference: %s)", short(in), t.name, render(ptr), short(enc), orOK(reason)))
+			add("C08:noncanonical:"+sigReason(r, t.class), fmt.Sprintf("DecodeBytes(%s, *%s) accepted, value %s re-encodes as %s (reference: %s)", short(in), t.name, render(ptr), short(enc), orOK(reason)))
 		case reason != "":
-			add("C08:accept-invalid:"+sigReason(reason, t.name), fmt.Sprintf("DecodeBytes(%s, *%s) accepted (value %s) but the reference rejects: %s", short(in), t.name, render(ptr), reason))
+			add("C08:accept-invalid:"+sigReason(reason, t.class), fmt.Sprintf("DecodeBytes(%s, *%s) accepted (value %s) but the reference rejects: %s", short(in), t.name, render(ptr), reason))
 		}
 		if reason == "" && eerr == nil {
 			if t.fromGo {
 				if it, ok := refrlp.FromGo(ptr); ok && !bytes.Equal(it.Encode(), in) {
-					add("C08:value-differs:"+t.name, fmt.Sprintf("DecodeBytes(%s, *%s) gave %s which denotes %s, not the input", short(in), t.name, render(ptr), it))
+					add("C08:value-differs:"+t.class, fmt.Sprintf("DecodeBytes(%s, *%s) gave %s which denotes %s, not the input", short(in), t.name, render(ptr), it))
 				}
 			}
 			if t.post != nil {
 				if m := t.post(ptr, in); m != "" {
-					add("C08:value-differs:"+t.name, fmt.Sprintf("DecodeBytes(%s, *%s): %s", short(in), t.name, m))
+					add("C08:value-differs:"+t.class, fmt.Sprintf("DecodeBytes(%s, *%s): %s", short(in), t.name, m))
 				}
 			}
 		}
@@ -308,9 +355,9 @@ func checkDecode(t *target, in []byte, deep bool) (fs []finding) {
 		}); p {
 			add("C08:panic:"+site, fmt.Sprintf("Stream.Decode(%s, *%s) panicked: %v", short(in), t.name, v))
 		} else if derr != nil {
-			add("C08:stream:decode-differs:"+t.name, fmt.Sprintf("DecodeBytes accepts %s for *%s but Stream.Decode says %v", short(in), t.name, derr))
+			add("C08:stream:decode-differs:"+t.class, fmt.Sprintf("DecodeBytes accepts %s for *%s but Stream.Decode says %v", short(in), t.name, derr))
 		} else if kerr != io.EOF {
-			add("C08:stream:value-not-consumed:"+t.name, fmt.Sprintf("after Stream.Decode(%s, *%s) the stream is not at EOF: Kind() err=%v (a decoded value was not consumed)", short(in), t.name, kerr))
+			add("C08:stream:value-not-consumed:"+t.class, fmt.Sprintf("after Stream.Decode(%s, *%s) the stream is not at EOF: Kind() err=%v (a decoded value was not consumed)", short(in), t.name, kerr))
 		}
 	}
 	if deep || err == nil {
@@ -325,9 +372,9 @@ func checkDecode(t *target, in []byte, deep bool) (fs []finding) {
 				consumed := len(in) + len(garbage) - rd.Len()
 				wantOK := err == nil || err == rlp.ErrMoreThanOneValue
 				if consumed > len(in) {
-					add("C08:overread:"+t.name, fmt.Sprintf("Stream with input limit %d consumed %d bytes decoding %s into *%s", len(in), consumed, short(in), t.name))
+					add("C08:overread:"+t.class, fmt.Sprintf("Stream with input limit %d consumed %d bytes decoding %s into *%s", len(in), consumed, short(in), t.name))
 				} else if (serr == nil) != wantOK {
-					add("C08:stream:limit-differs:"+t.name, fmt.Sprintf("DecodeBytes(%s,*%s)=%v but a Stream limited to the same %d bytes says %v", short(in), t.name, err, len(in), serr))
+					add("C08:stream:limit-differs:"+t.class, fmt.Sprintf("DecodeBytes(%s,*%s)=%v but a Stream limited to the same %d bytes says %v", short(in), t.name, err, len(in), serr))
 				}
 			}
 		}
@@ -607,6 +654,7 @@ func checkAlloc(t *target, in []byte) (fs []finding) {
 
 func checkValue(group string, v interface{}) (fs []finding) {
 	add := func(sig, msg string) { fs = append(fs, finding{sig, "value", msg}) }
+	class := classOf(group)
 	var enc []byte
 	var err error
 	if p, pv, site := fw.Try(func() { enc, err = rlp.EncodeToBytes(v) }); p {
@@ -614,7 +662,7 @@ func checkValue(group string, v interface{}) (fs []finding) {
 		return
 	}
 	if err != nil {
-		add("C08:encode-error:"+group, fmt.Sprintf("EncodeToBytes(%s %s) = %v", group, renderV(v), err))
+		add("C08:encode-error:"+class, fmt.Sprintf("EncodeToBytes(%s %s) = %v", group, renderV(v), err))
 		return
 	}
 	var want *refrlp.Item
@@ -626,7 +674,7 @@ func checkValue(group string, v interface{}) (fs []finding) {
 		want, _ = refrlp.FromGo(v)
 	}
 	if want != nil && !bytes.Equal(want.Encode(), enc) {
-		add("C08:encode:differs-from-reference:"+group, fmt.Sprintf("EncodeToBytes(%s %s) = %s, reference encoding %s", group, renderV(v), short(enc), short(want.Encode())))
+		add("C08:encode:differs-from-reference:"+class, fmt.Sprintf("EncodeToBytes(%s %s) = %s, reference encoding %s", group, renderV(v), short(enc), short(want.Encode())))
 	}
 	var dec reflect.Value
 	switch {
@@ -640,7 +688,7 @@ func checkValue(group string, v interface{}) (fs []finding) {
 		return
 	}
 	if err != nil {
-		add("C08:reject-valid:"+group, fmt.Sprintf("EncodeToBytes(%s %s) = %s cannot be decoded back: %v", group, renderV(v), short(enc), err))
+		add("C08:reject-valid:"+class+":"+errSlug(err), fmt.Sprintf("EncodeToBytes(%s %s) = %s cannot be decoded back: %v", group, renderV(v), short(enc), err))
 		return
 	}
 	got := dec.Elem().Interface()
@@ -651,13 +699,13 @@ func checkValue(group string, v interface{}) (fs []finding) {
 		same = refrlp.EqualGo(v, got)
 	}
 	if !same {
-		add("C08:roundtrip:value-differs:"+group, fmt.Sprintf("%s %s encodes to %s and decodes to %s", group, renderV(v), short(enc), renderV(got)))
+		add("C08:roundtrip:value-differs:"+class, fmt.Sprintf("%s %s encodes to %s and decodes to %s", group, renderV(v), short(enc), renderV(got)))
 	}
 	var enc2 []byte
 	if p, pv, site := fw.Try(func() { enc2, err = rlp.EncodeToBytes(got) }); p {
 		add("C08:panic:"+site, fmt.Sprintf("re-encoding %s panicked: %v", renderV(got), pv))
 	} else if err != nil || !bytes.Equal(enc, enc2) {
-		add("C08:roundtrip:reencode-differs:"+group, fmt.Sprintf("%s %s: first encoding %s, encoding of the decoded value %s (%v)", group, renderV(v), short(enc), short(enc2), err))
+		add("C08:roundtrip:reencode-differs:"+class, fmt.Sprintf("%s %s: first encoding %s, encoding of the decoded value %s (%v)", group, renderV(v), short(enc), short(enc2), err))
 	}
 	return
 }
@@ -784,6 +832,11 @@ func (r *runner) input(in []byte, ts []*target, deep, alloc bool) {
 		r.evals++
 		if wellFormed || nAccepted > a0 {
 			r.nontriv++
+		}
+		for _, f := range fs {
+			if strings.HasPrefix(f.sig, "C08:panic:") {
+				allocTainted = true // e.g. makeslice: len out of range
+			}
 		}
 		if len(fs) > 0 {
 			r.report(kase{Part: "decode", Type: t.name, In: packBytes(in), Deep: deep}, fs, func() []finding { return checkDecode(t, in, deep) })
@@ -1046,7 +1099,7 @@ func main() {
 			if t == "thorough" {
 				return 17 * time.Minute
 			}
-			return 70 * time.Second
+			return 60 * time.Second
 		},
 	})
 }
